@@ -1,5 +1,6 @@
 /- Helper lemmas for C06Reach: the record of the tagging job in flight and the during-job masks. -/
 import Pk.Proofs.MgrTagsStep
+import Pk.Proofs.MgrTruthSound
 namespace Pk.Proofs.MgrTruth
 open Pk.Mgr Pk.Proofs.MgrTags
 
@@ -40,7 +41,6 @@ theorem setTag_jp (s : St) (n : String) (t : Tag) : jp (setTag s n t) = jp s := 
 theorem addRefBy_jp (s : St) (a b : String) : jp (addRefBy s a b) = jp s := by unfold addRefBy; jframe
 theorem delRefBy_jp (s : St) (a b : String) : jp (delRefBy s a b) = jp s := by unfold delRefBy; jframe
 theorem attachConv_jp (s : St) (n c : String) : jp (attachConv s n c).1 = jp s := by unfold attachConv; jframe
-theorem detachConv_jp (s : St) (n c : String) : jp (detachConv s n c) = jp s := by unfold detachConv; jframe
 theorem qConv_jp (s : St) (cs : List String) (ids : IdSet) : jp (qConv s cs ids) = jp s := by unfold qConv; jframe
 theorem muAdd_jp (t : Tag) (s : St) (a : List Nat) : jp (muAdd t s a).2 = jp s := by unfold muAdd; jframe
 theorem muFin_jp (s : St) (n : String) (u : IdSet) : jp (muFin s n u) = jp s := by unfold muFin; jframe
@@ -245,6 +245,478 @@ theorem started_of (X fin : St) (c : Option String) (hw : Sorted X.tags) (hj : X
   obtain ⟨ot, h1, c1, c2, c3, c4, c5, c6, c7, c8⟩ := hp.tags jn snap g
   exact ⟨ot, h1, c1, c2, c3, c4, c5, c6, c7, e3.trans u1, e4.trans u2, e5.trans u3, c8⟩
 
+/-! ## the converter-output-dropped path (`outputDropped` inside `detachConv`) -/
+
+theorem dropTail_tags (Y : St) (r : IdSet) (c : Option String) :
+    (startTagging (invalidatedDuringTaggingJob Y r) c).tags = Y.tags :=
+  ((invalidatedDuring_same Y r).trans (startTagging_same _ c)).1
+
+theorem dropTail_jk (s Y : St) (ids : IdSet) (c : Option String) (hj : jp Y = jp s) (ht : s.tag = true) :
+    JK s (startTagging (invalidatedDuringTaggingJob Y ids) c) := by
+  have h1 : JK s (invalidatedDuringTaggingJob Y ids) := (JK.of_jp hj).trans (invalidatedDuring_jk _ _)
+  rw [startTagging_id _ _ (h1.tag.trans ht)]; exact h1
+
+/-- while a job is in flight `outputDropped` keeps its record (the mask `rst` grows) -/
+theorem outputDropped_jk (s : St) (c : Option String) (ht : s.tag = true) : JK s (outputDropped s c) := by
+  rw [outputDropped_eq]
+  split
+  · exact dropTail_jk s _ _ c rfl ht
+  · exact JK.refl _
+
+-- CHANGED (dropped): was `detachConv_jp : jp (detachConv s n c) = jp s`; the detach may now run `outputDropped`,
+-- which starts a job when none is in flight and grows the mask `rst` when one is
+theorem detachConv_jk (s : St) (n c : String) (choice : Option String) (ht : s.tag = true) :
+    JK s (detachConv s n c choice) := by
+  unfold detachConv
+  split
+  · exact JK.refl _
+  · simp only []
+    split
+    · refine JK.trans (JK.of_jp ?_) (outputDropped_jk _ _ ?_)
+      · rfl
+      · exact ht
+    · exact JK.of_jp rfl
+
+theorem foldl_detach_jk (s : St) (n : String) (choice : Option String) (l : List String) (ht : s.tag = true) :
+    JK s (l.foldl (fun s c => detachConv s n c choice) s) :=
+  foldl_inv (fun s' => JK s s') _ (fun a b ha => ha.trans (detachConv_jk a n b choice (ha.tag.trans ht))) l s
+    (JK.refl s)
+
+/-- the fields of a tag that only an edit of the tag changes -/
+def Fld (t t' : Tag) : Prop :=
+  t'.mat = t.mat ∧ t'.defn = t.defn ∧ t'.mfeat = t.mfeat ∧ t'.sfeat = t.sfeat ∧ t'.mainT = t.mainT ∧
+  t'.subT = t.subT ∧ t'.gen = t.gen
+
+theorem Fld.refl (t : Tag) : Fld t t := ⟨rfl, rfl, rfl, rfl, rfl, rfl, rfl⟩
+theorem Fld.trans {a b c : Tag} (h1 : Fld a b) (h2 : Fld b c) : Fld a c := by
+  obtain ⟨a1, a2, a3, a4, a5, a6, a7⟩ := h1
+  obtain ⟨b1, b2, b3, b4, b5, b6, b7⟩ := h2
+  exact ⟨b1.trans a1, b2.trans a2, b3.trans a3, b4.trans a4, b5.trans a5, b6.trans a6, b7.trans a7⟩
+theorem Fld.symm {a b : Tag} (h : Fld a b) : Fld b a := by
+  obtain ⟨a1, a2, a3, a4, a5, a6, a7⟩ := h
+  exact ⟨a1.symm, a2.symm, a3.symm, a4.symm, a5.symm, a6.symm, a7.symm⟩
+
+/-- same fields, pending streams below the bound stay pending -/
+def GRel (A : Nat) (t t' : Tag) : Prop := Fld t t' ∧ ∀ id, id ∈ t.unc → id < A → id ∈ t'.unc
+
+theorem GRel.refl (A : Nat) (t : Tag) : GRel A t t := ⟨Fld.refl t, fun _ h _ => h⟩
+theorem GRel.trans {A : Nat} {a b c : Tag} (h1 : GRel A a b) (h2 : GRel A b c) : GRel A a c :=
+  ⟨h1.1.trans h2.1, fun id h hb => h2.2 id (h1.2 id h hb) hb⟩
+theorem GRel.of_core {A : Nat} {t t' : Tag} (h : Core t t') : GRel A t t' := by
+  obtain ⟨c1, c2, c3, c4, c5, c6, c7, c8⟩ := h
+  exact ⟨⟨c1, c3, c4, c5, c6, c7, c8⟩, fun id hid _ => c2 ▸ hid⟩
+
+/-- every entry is kept up to `GRel` -/
+def G (A : Nat) (T T' : List (String × Tag)) : Prop :=
+  ∀ n t, sget T n = some t → ∃ t', sget T' n = some t' ∧ GRel A t t'
+
+theorem G.refl (A : Nat) (T : List (String × Tag)) : G A T T := fun _ t h => ⟨t, h, GRel.refl A t⟩
+theorem G.trans {A : Nat} {T1 T2 T3 : List (String × Tag)} (h1 : G A T1 T2) (h2 : G A T2 T3) : G A T1 T3 := by
+  intro n t h
+  obtain ⟨t1, e1, r1⟩ := h1 n t h
+  obtain ⟨t2, e2, r2⟩ := h2 n t1 e1
+  exact ⟨t2, e2, r1.trans r2⟩
+theorem G.of_eq {A : Nat} {T T' : List (String × Tag)} (h : T' = T) : G A T T' := h ▸ G.refl A T
+
+theorem g_sins_rel {A : Nat} {m : String} {t t' : Tag} {T : List (String × Tag)}
+    (hm : sget T m = some t) (hr : GRel A t t') : G A T (sins m t' T) := by
+  intro n t0 h0
+  rw [sget_sins]
+  by_cases e : m = n
+  · subst e; rw [hm] at h0; cases h0; exact ⟨t', if_pos rfl, hr⟩
+  · exact ⟨t0, by rw [if_neg e]; exact h0, GRel.refl _ _⟩
+
+theorem g_map {A : Nat} (f : String → Tag → Tag) (hf : ∀ k t, GRel A t (f k t)) (T : List (String × Tag)) :
+    G A T (T.map fun p => (p.1, f p.1 p.2)) := by
+  intro n t h
+  exact ⟨f n t, by simp [sget_map, h], hf _ _⟩
+
+theorem inheritOne_grel (all : Nat) (tags : List (String × Tag)) (t : Tag) : GRel all t (inheritOne all tags t) := by
+  refine ⟨?_, (trel_inheritOne all tags t).2.2⟩
+  unfold inheritOne
+  split
+  · exact Fld.refl _
+  · split <;> exact ⟨rfl, rfl, rfl, rfl, rfl, rfl, rfl⟩
+
+theorem passStep_g (all : Nat) (T0 : List (String × Tag)) (acc) (nt : String × Tag)
+    (h : G all T0 acc.1) : G all T0 (passStep all acc nt).1 := by
+  unfold passStep
+  split
+  · exact h
+  · split
+    · exact h
+    · rename_i t ht
+      split
+      · exact h.trans (g_sins_rel ht (inheritOne_grel _ _ _))
+      · exact h
+
+theorem inherit_g (s : St) : G s.all s.tags (inherit s).tags := by
+  obtain ⟨res, h, _⟩ := inheritLoop_inv s.all (fun acc => G s.all s.tags acc.1)
+    (passStep_g s.all s.tags) (s.tags.length + 1) s.tags [] (G.refl _ _)
+  exact h
+
+theorem inherit_bounded (s : St) (hb : Bounded s.all s.tags) : Bounded s.all (inherit s).tags := by
+  obtain ⟨res, hp, _⟩ := inheritLoop_inv s.all (PInv s.all) (passStep_pinv s.all)
+    (s.tags.length + 1) s.tags [] ⟨by simp, by simp, hb⟩
+  exact hp.bnd
+
+/-- the state of `outputDropped` before its sweep -/
+def odMap (s : St) : St := { s with tags := s.tags.map fun p => (p.1, odF s.all p.2) }
+
+theorem outputDropped_eq' (s : St) (choice : Option String) :
+    outputDropped s choice =
+      if s.tags.any (fun nt => (nt.2.mfeat ||| nt.2.sfeat) &&& fData != 0) then
+        startTagging (invalidatedDuringTaggingJob (inherit (odMap s)) (rangeSet s.all)) choice
+      else s := outputDropped_eq s choice
+
+theorem odF_fld (A : Nat) (t : Tag) : Fld t (odF A t) := by
+  unfold odF; split
+  · exact ⟨rfl, rfl, rfl, rfl, rfl, rfl, rfl⟩
+  · exact Fld.refl _
+
+theorem odF_grel (A : Nat) (t : Tag) : GRel A t (odF A t) := ⟨odF_fld A t, (trel_odF A t).2.2⟩
+
+theorem odMap_g (s : St) : G s.all s.tags (odMap s).tags := g_map (fun _ t => odF s.all t) (fun _ t => odF_grel _ t) _
+
+theorem odMap_sget (s : St) (n : String) : sget (odMap s).tags n = (sget s.tags n).map (odF s.all) :=
+  sget_map (fun _ t => odF s.all t) s.tags n
+
+theorem odMap_bounded (s : St) (hb : Bounded s.all s.tags) : Bounded s.all (odMap s).tags := by
+  intro n t' h id hid
+  rw [odMap_sget] at h
+  cases ht : sget s.tags n with
+  | none => rw [ht] at h; cases h
+  | some t =>
+    rw [ht] at h
+    simp only [Option.map_some, Option.some.injEq] at h
+    subst h
+    unfold odF at hid
+    split at hid
+    · simpa using hid
+    · exact hb n t ht id hid
+
+theorem outputDropped_g (s : St) (c : Option String) : G s.all s.tags (outputDropped s c).tags := by
+  rw [outputDropped_eq']
+  split
+  · rw [dropTail_tags]
+    exact (odMap_g s).trans (inherit_g (odMap s))
+  · exact G.refl _ _
+
+theorem outputDropped_bounded (s : St) (c : Option String) (hb : Bounded s.all s.tags) :
+    Bounded s.all (outputDropped s c).tags := by
+  rw [outputDropped_eq']
+  split
+  · rw [dropTail_tags]
+    exact inherit_bounded (odMap s) (odMap_bounded s hb)
+  · exact hb
+
+/-- same table up to `color`, `convs`, `refBy` -/
+def TEq (T T' : List (String × Tag)) : Prop :=
+  ∀ n, (∀ t, sget T n = some t → ∃ t', sget T' n = some t' ∧ Core t t') ∧ (sget T n = none → sget T' n = none)
+
+theorem TEq.refl (T : List (String × Tag)) : TEq T T := fun _ => ⟨fun t h => ⟨t, h, Core.refl t⟩, id⟩
+theorem TEq.trans {T1 T2 T3 : List (String × Tag)} (h1 : TEq T1 T2) (h2 : TEq T2 T3) : TEq T1 T3 := by
+  intro n
+  refine ⟨fun t h => ?_, fun h => (h2 n).2 ((h1 n).2 h)⟩
+  obtain ⟨t1, e1, c1⟩ := (h1 n).1 t h
+  obtain ⟨t2, e2, c2⟩ := (h2 n).1 t1 e1
+  exact ⟨t2, e2, c1.trans c2⟩
+theorem TEq.of_eq {T T' : List (String × Tag)} (h : T' = T) : TEq T T' := h ▸ TEq.refl T
+
+theorem teq_sins {m : String} {t t' : Tag} {T : List (String × Tag)} (hm : sget T m = some t) (hc : Core t t') :
+    TEq T (sins m t' T) := by
+  intro n
+  rw [sget_sins]
+  by_cases e : m = n
+  · subst e
+    exact ⟨fun t0 h0 => by rw [hm] at h0; cases h0; exact ⟨t', if_pos rfl, hc⟩,
+      fun h0 => by rw [hm] at h0; cases h0⟩
+  · rw [if_neg e]
+    exact ⟨fun t0 h0 => ⟨t0, h0, Core.refl _⟩, id⟩
+
+theorem TEq.g {A : Nat} {T T' : List (String × Tag)} (h : TEq T T') : G A T T' := by
+  intro n t ht
+  obtain ⟨t', e, c⟩ := (h n).1 t ht
+  exact ⟨t', e, GRel.of_core c⟩
+
+theorem TEq.bounded {A : Nat} {T T' : List (String × Tag)} (h : TEq T T') (hb : Bounded A T) : Bounded A T' := by
+  intro n t' ht' id hid
+  cases ht : sget T n with
+  | none => rw [(h n).2 ht] at ht'; cases ht'
+  | some t =>
+    obtain ⟨t2, e, c⟩ := (h n).1 t ht
+    rw [ht'] at e; cases e
+    exact hb n t ht id (c.2.1 ▸ hid)
+
+/-- a helper that leaves the job record, the masks and (up to `color`, `convs`, `refBy`) the table alone -/
+structure Quiet (X Q : St) : Prop where
+  all : Q.all = X.all
+  jp : jp Q = jp X
+  sorted : Sorted X.tags → Sorted Q.tags
+  tags : TEq X.tags Q.tags
+
+theorem Quiet.refl (X : St) : Quiet X X := ⟨rfl, rfl, id, TEq.refl _⟩
+theorem Quiet.trans {a b c : St} (h1 : Quiet a b) (h2 : Quiet b c) : Quiet a c :=
+  ⟨h2.all.trans h1.all, h2.jp.trans h1.jp, fun h => h2.sorted (h1.sorted h), h1.tags.trans h2.tags⟩
+theorem foldl_quiet {β} (f : St → β → St) (h : ∀ s b, Quiet s (f s b)) (l : List β) (s : St) :
+    Quiet s (l.foldl f s) :=
+  foldl_inv (fun s' => Quiet s s') f (fun a b ha => ha.trans (h a b)) l s (Quiet.refl s)
+theorem Quiet.post {X Q : St} (h : Quiet X Q) : Post X Q := ⟨h.jp, fun n t ht => (h.tags n).1 t ht⟩
+theorem Quiet.of_same {X Q : St} (h : Same X Q) (hj : MgrTruth.jp Q = MgrTruth.jp X) : Quiet X Q :=
+  ⟨h.2.1, hj, fun hs => h.1 ▸ hs, TEq.of_eq h.1⟩
+
+theorem setTag_quiet {s : St} {m : String} {t t' : Tag} (hm : sget s.tags m = some t) (hc : Core t t') :
+    Quiet s (setTag s m t') := ⟨rfl, rfl, sorted_sins _ _ _, teq_sins hm hc⟩
+
+theorem delRefBy_quiet (s : St) (a b : String) : Quiet s (delRefBy s a b) := by
+  unfold delRefBy
+  split
+  · rename_i t ht; exact setTag_quiet ht ⟨rfl, rfl, rfl, rfl, rfl, rfl, rfl, rfl⟩
+  · exact Quiet.refl _
+
+theorem attachConv_quiet (s : St) (n c : String) : Quiet s (attachConv s n c).1 := by
+  unfold attachConv
+  split
+  · exact Quiet.refl _
+  · rename_i t ht
+    split
+    · exact Quiet.refl _
+    · split
+      · exact Quiet.refl _
+      · have h := setTag_quiet (t' := { t with convs := t.convs ++ [c] }) ht ⟨rfl, rfl, rfl, rfl, rfl, rfl, rfl, rfl⟩
+        exact ⟨h.all, h.jp, h.sorted, h.tags⟩
+
+theorem startConverter_quiet (s : St) : Quiet s (startConverter s) :=
+  Quiet.of_same (startConverter_same _) (startConverter_jp _)
+
+/-- the references of the snapshot justify a late pending stream -/
+def LateCov (s' : St) (snap : Tag) (id : Nat) : Prop :=
+  (s'.upd ≠ [] ∨ s'.rst ≠ [] ∨ s'.add ≠ []) ∧
+  ((∃ r, r ∈ snap.mainT ∧ ∃ tr, sget s'.tags r = some tr ∧ id ∈ tr.unc) ∨
+   (∃ r, r ∈ snap.subT ∧ ∃ tr id', sget s'.tags r = some tr ∧ id' ∈ tr.unc))
+
+theorem ne_nil_of_sub {a b : List Nat} (h : ∀ x, x ∈ a → x ∈ b) (ha : a ≠ []) : b ≠ [] := by
+  cases a with
+  | nil => exact absurd rfl ha
+  | cons x r =>
+    intro e
+    have := h x (by simp)
+    rw [e] at this; cases this
+
+theorem LateCov.mono {X X' : St} {snap : Tag} {id : Nat} (hm : JK X X')
+    (hg : ∀ r, r ∈ snap.mainT ∨ r ∈ snap.subT → ∀ tr, sget X.tags r = some tr →
+      ∃ tr', sget X'.tags r = some tr' ∧ ∀ i, i ∈ tr.unc → i ∈ tr'.unc)
+    (h : LateCov X snap id) : LateCov X' snap id := by
+  obtain ⟨h1, h2⟩ := h
+  refine ⟨?_, ?_⟩
+  · rcases h1 with h1 | h1 | h1
+    · exact Or.inl (ne_nil_of_sub hm.upd h1)
+    · exact Or.inr (Or.inl (ne_nil_of_sub hm.rst h1))
+    · exact Or.inr (Or.inr (ne_nil_of_sub hm.add h1))
+  · rcases h2 with ⟨r, hr, tr, e, hid⟩ | ⟨r, hr, tr, id', e, hid⟩
+    · obtain ⟨tr', e', hs⟩ := hg r (Or.inl hr) tr e
+      exact Or.inl ⟨r, hr, tr', e', hs id hid⟩
+    · obtain ⟨tr', e', hs⟩ := hg r (Or.inr hr) tr e
+      exact Or.inr ⟨r, hr, tr', id', e', hs id' hid⟩
+
+/-- the snapshot of a job started by `outputDropped`: a payload tag is pending for every stream -/
+def PayFull (A : Nat) (snap : Tag) : Prop :=
+  ((snap.mfeat ||| snap.sfeat) &&& fData != 0) = true → ∀ id, id < A → id ∈ snap.unc
+
+/-- the job record inside the detach fold: no job, or a job whose snapshot is the table entry up to pending
+    streams that arrived late, each of them justified -/
+def JInv (A : Nat) (X : St) : Prop :=
+  (X.tag = false ∧ X.jTag = none) ∨
+  (X.tag = true ∧ ∃ jn snap held ot, X.jTag = some (jn, snap, held) ∧ sget X.tags jn = some ot ∧
+    GRel A snap ot ∧ PayFull A snap ∧
+    ∀ id, id ∈ ot.unc → id ∉ snap.unc → id < A → LateCov X snap id)
+
+theorem JInv.post {A : Nat} {X Q : St} (hp : Post X Q) (h : JInv A X) : JInv A Q := by
+  have hjp := hp.jp
+  simp only [jp, Prod.mk.injEq] at hjp
+  obtain ⟨e1, e2, _, _, _⟩ := hjp
+  rcases h with ⟨h1, h2⟩ | ⟨h1, jn, snap, held, ot, hj, hot, hg, hpf, hl⟩
+  · exact Or.inl ⟨e2.trans h1, e1.trans h2⟩
+  · obtain ⟨ot', hot', hc⟩ := hp.tags jn ot hot
+    refine Or.inr ⟨e2.trans h1, jn, snap, held, ot', e1.trans hj, hot', hg.trans (GRel.of_core hc), hpf, ?_⟩
+    intro id hid hns hb
+    refine (hl id (hc.2.1 ▸ hid) hns hb).mono hp.jk ?_
+    intro r _ tr htr
+    obtain ⟨tr', e', c'⟩ := hp.tags r tr htr
+    exact ⟨tr', e', fun i hi => c'.2.1.symm ▸ hi⟩
+
+theorem startTagging_cases (s : St) (c : Option String) (hw : Sorted s.tags) (ht : s.tag = false)
+    (hn : s.jTag = none) :
+    ((startTagging s c).tag = false ∧ (startTagging s c).jTag = none) ∨
+    (∃ jn snap held, (startTagging s c).jTag = some (jn, snap, held) ∧ (startTagging s c).tag = true ∧
+      sget s.tags jn = some snap) := by
+  unfold startTagging
+  split
+  · exact Or.inl ⟨ht, hn⟩
+  · split
+    · exact Or.inl ⟨ht, hn⟩
+    · simp only []
+      split
+      · split
+        · exact Or.inl ⟨ht, hn⟩
+        · rename_i n t hf
+          exact Or.inr ⟨n, t, _, rfl, rfl, mem_sget_sorted _ hw _ _ (List.mem_of_find?_eq_some hf)⟩
+      · rename_i n t hp
+        refine Or.inr ⟨n, t, _, rfl, rfl, ?_⟩
+        split at hp
+        · split at hp
+          · rename_i hg
+            split at hp
+            · cases hp; exact hg
+            · cases hp
+          · cases hp
+        · cases hp
+
+theorem mem_tagUnc {T : List (String × Tag)} {r : String} {id : Nat} (h : id ∈ tagUnc T r) :
+    ∃ tr, sget T r = some tr ∧ id ∈ tr.unc := by
+  unfold tagUnc at h
+  cases hr : sget T r with
+  | none => simp [hr] at h
+  | some t => simp [hr] at h; exact ⟨t, rfl, h⟩
+
+theorem tagUnc_ne_nil {T : List (String × Tag)} {r : String} (h : tagUnc T r ≠ []) :
+    ∃ tr id', sget T r = some tr ∧ id' ∈ tr.unc := by
+  cases hu : tagUnc T r with
+  | nil => exact absurd hu h
+  | cons x l =>
+    obtain ⟨tr, e, hx⟩ := mem_tagUnc (T := T) (r := r) (id := x) (by rw [hu]; simp)
+    exact ⟨tr, x, e, hx⟩
+
+theorem outputDropped_jinv (X : St) (c : Option String) (hw : Sorted X.tags) (hb : Bounded X.all X.tags)
+    (h : JInv X.all X) : JInv X.all (outputDropped X c) := by
+  rw [outputDropped_eq']
+  split
+  case isFalse => exact h
+  have gM := odMap_g X
+  have gY : G X.all (odMap X).tags (inherit (odMap X)).tags := inherit_g (odMap X)
+  have hwM : Sorted (odMap X).tags := by
+    apply sorted_of_keys_eq _ _ _ hw
+    simp [odMap, Function.comp_def]
+  have hwY : Sorted (inherit (odMap X)).tags := inherit_sorted _ hwM
+  rcases h with ⟨h1, h2⟩ | ⟨h1, jn, snap, held, ot, hj, hot, hg, hpf, hl⟩
+  · -- no job in flight: the mask is not touched, `startTagging` may start a job
+    have e : invalidatedDuringTaggingJob (inherit (odMap X)) (rangeSet X.all) = inherit (odMap X) := by
+      unfold invalidatedDuringTaggingJob
+      rw [if_neg]
+      show ¬ X.tag = true
+      rw [h1]; simp
+    rw [e]
+    rcases startTagging_cases (inherit (odMap X)) c hwY h1 h2 with hc | ⟨jn, snap, held, hj, htg, hs⟩
+    · exact Or.inl hc
+    · refine Or.inr ⟨htg, jn, snap, held, snap, hj, ?_, GRel.refl _ _, ?_, fun id hid hns _ => absurd hid hns⟩
+      · rw [(startTagging_same _ _).1]; exact hs
+      · intro hpay id hid
+        cases h0 : sget X.tags jn with
+        | none =>
+          have : sget (odMap X).tags jn = none := by rw [odMap_sget, h0]; rfl
+          rw [(inherit_keep (odMap X) jn).2 this] at hs; cases hs
+        | some t0 =>
+          have hm : sget (odMap X).tags jn = some (odF X.all t0) := by rw [odMap_sget, h0]; rfl
+          obtain ⟨t', e', r'⟩ := gY jn _ hm
+          rw [hs] at e'; cases e'
+          apply r'.2 id _ hid
+          obtain ⟨_, _, f3, f4, _⟩ := r'.1
+          rw [f3, f4] at hpay
+          unfold odF at hpay ⊢
+          split
+          · simpa using hid
+          · rename_i hnp; rw [if_neg hnp] at hpay; exact absurd hpay hnp
+  · -- a job is in flight: `startTagging` is the identity, the mask `rst` covers every stream
+    have hjk : JK X (startTagging (invalidatedDuringTaggingJob (inherit (odMap X)) (rangeSet X.all)) c) :=
+      dropTail_jk X _ _ c rfl h1
+    have hrst : ∀ id, id < X.all →
+        id ∈ (startTagging (invalidatedDuringTaggingJob (inherit (odMap X)) (rangeSet X.all)) c).rst := by
+      intro id hid
+      have ht2 : (invalidatedDuringTaggingJob (inherit (odMap X)) (rangeSet X.all)).tag = true :=
+        (invalidatedDuring_jk (inherit (odMap X)) (rangeSet X.all)).tag.trans h1
+      rw [startTagging_id _ c ht2]
+      unfold invalidatedDuringTaggingJob
+      rw [if_pos (show (inherit (odMap X)).tag = true from h1)]
+      simp [hid]
+    have hm : sget (odMap X).tags jn = some (odF X.all ot) := by rw [odMap_sget, hot]; rfl
+    obtain ⟨oti, hoti, hgi⟩ := gY jn _ hm
+    refine Or.inr ⟨hjk.tag.trans h1, jn, snap, held, oti, hjk.jTag.trans hj, ?_,
+      hg.trans ((odF_grel _ _).trans hgi), hpf, ?_⟩
+    · rw [dropTail_tags]; exact hoti
+    · intro id hid hns hlt
+      have hmask : (startTagging (invalidatedDuringTaggingJob (inherit (odMap X)) (rangeSet X.all)) c).rst ≠ [] := by
+        intro e0
+        have := hrst id hlt
+        rw [e0] at this; cases this
+      rcases inherit_sound' (odMap X) jn _ oti hm hoti id hid with hu | ⟨r, hr, hu⟩ | ⟨r, hr, hu⟩
+      · -- pending before the sweep
+        have hold : id ∈ ot.unc := by
+          unfold odF at hu
+          split at hu
+          · rename_i hpay
+            obtain ⟨_, _, f3, f4, _⟩ := hg.1
+            rw [f3, f4] at hpay
+            exact absurd (hpf hpay id hlt) hns
+          · exact hu
+        refine (hl id hold hns hlt).mono hjk ?_
+        intro r _ tr htr
+        obtain ⟨tr', e', r'⟩ := (gM.trans gY) r tr htr
+        refine ⟨tr', by rw [dropTail_tags]; exact e', fun i hi => r'.2 i hi (hb r tr htr i hi)⟩
+      · obtain ⟨tr, e, hi⟩ := mem_tagUnc hu
+        refine ⟨Or.inr (Or.inl hmask), Or.inl ⟨r, ?_, tr, by rw [dropTail_tags]; exact e, hi⟩⟩
+        have := (odF_fld X.all ot).2.2.2.2.1
+        rw [this] at hr
+        exact hg.1.2.2.2.2.1 ▸ hr
+      · obtain ⟨tr, id', e, hi⟩ := tagUnc_ne_nil hu
+        refine ⟨Or.inr (Or.inl hmask), Or.inr ⟨r, ?_, tr, id', by rw [dropTail_tags]; exact e, hi⟩⟩
+        have := (odF_fld X.all ot).2.2.2.2.2.1
+        rw [this] at hr
+        exact hg.1.2.2.2.2.2.1 ▸ hr
+
+/-- the invariant of the detach fold of `updConv` / `delTag`, started in `s` -/
+structure FI (s X : St) : Prop where
+  all : X.all = s.all
+  sorted : Sorted X.tags
+  back : ∀ n, sget s.tags n = none → sget X.tags n = none
+  bnd : Bounded s.all X.tags
+  g : G s.all s.tags X.tags
+  jinv : JInv s.all X
+
+theorem FI.quiet {s X Q : St} (hq : Quiet X Q) (h : FI s X) : FI s Q :=
+  ⟨hq.all.trans h.all, hq.sorted h.sorted, fun n hn => (hq.tags n).2 (h.back n hn), hq.tags.bounded h.bnd,
+    h.g.trans hq.tags.g, h.jinv.post hq.post⟩
+
+theorem FI.dropped {s X : St} (c : Option String) (h : FI s X) : FI s (outputDropped X c) := by
+  have hf := outputDropped_fr X c
+  refine ⟨hf.all.trans h.all, hf.sorted h.sorted, fun n hn => (hf.keep n trivial).2 (h.back n hn), ?_, ?_, ?_⟩
+  · have := outputDropped_bounded X c (h.all ▸ h.bnd)
+    rw [h.all] at this; exact this
+  · have := outputDropped_g X c
+    rw [h.all] at this; exact h.g.trans this
+  · have := outputDropped_jinv X c h.sorted (h.all ▸ h.bnd) (h.all ▸ h.jinv)
+    rw [h.all] at this; exact this
+
+theorem detachConv_fi {s X : St} (n c : String) (choice : Option String) (h : FI s X) :
+    FI s (detachConv X n c choice) := by
+  unfold detachConv
+  split
+  · exact h
+  · rename_i t ht
+    have hq := setTag_quiet (t' := { t with convs := t.convs.filter (· != c) }) ht ⟨rfl, rfl, rfl, rfl, rfl, rfl, rfl, rfl⟩
+    simp only []
+    split
+    · refine FI.dropped _ (FI.quiet ?_ h)
+      exact ⟨hq.all, hq.jp, hq.sorted, hq.tags⟩
+    · refine FI.quiet ?_ h
+      exact ⟨hq.all, hq.jp, hq.sorted, hq.tags⟩
+
+theorem foldl_detach_fi (s : St) (n : String) (choice : Option String) (l : List String) (h : FI s s) :
+    FI s (l.foldl (fun s c => detachConv s n c choice) s) :=
+  foldl_inv (fun s' => FI s s') _ (fun _ b ha => detachConv_fi n b choice ha) l s h
+
+theorem FI.init (s : St) (hw : Sorted s.tags) (hb : Bounded s.all s.tags) (ht : s.tag = false) (hj : s.jTag = none) :
+    FI s s := ⟨rfl, hw, fun _ h => h, hb, G.refl _ _, Or.inl ⟨ht, hj⟩⟩
+
 /-! ## `step`, event by event -/
 
 /-- what an event other than a tagging completion does to the job record: either it is kept (and the
@@ -337,15 +809,18 @@ theorem step_updName_dec (s : St) (name new : String) (st : Started) :
   rw [foldl_jp _ (fun s r => (addRefBy_jp _ r new).trans (delRefBy_jp s r name))]
   rfl
 
-theorem step_updConv_dec (s : St) (name : String) (convs : List String) (st : Started) :
+-- CHANGED (dropped): only while a job is in flight (`s.tag = true`) does `updConv` keep the job record; without
+-- one the detach fold may start a job (see `step_updConv_jinv`)
+theorem step_updConv_dec (s : St) (name : String) (convs : List String) (st : Started) (ht : s.tag = true) :
     Dec s st.tag (step s (.updConv name convs) st).1 := by
   rw [step_updConv_eq]
   repeat' split
   all_goals first | exact .plain (JK.refl _) | skip
-  refine .plain (JK.of_jp ?_)
+  rename_i t _ _
+  refine .plain ?_
   unfold ucAttach ucDetach
-  rw [startConverter_jp, foldl_jp _ (fun s c => attachConv_jp s name c),
-    foldl_jp _ (fun s c => detachConv_jp s name c)]
+  refine JK.trans (foldl_detach_jk s name st.tag (t.convs.filter (fun c => !convs.contains c)) ht) (JK.of_jp ?_)
+  rw [startConverter_jp, foldl_jp _ (fun s c => attachConv_jp s name c)]
 
 theorem markTail_dec (s : St) (name : String) (a d : List Nat) (st : Started) :
     Dec s st.tag (markTail (markUpdate s name a d) st).1 :=
@@ -365,17 +840,23 @@ theorem step_markDel_dec (s : St) (name : String) (ids : List Nat) (st : Started
   all_goals first | exact .plain (JK.refl _) | skip
   exact markTail_dec _ _ _ _ _
 
-theorem step_delTag_dec (s : St) (name : String) (st : Started) :
+-- CHANGED (dropped): only while a job is in flight (`s.tag = true`) does `delTag` keep the job record; without
+-- one the detach fold may start a job (see `step_delTag_jinv`)
+theorem step_delTag_dec (s : St) (name : String) (st : Started) (ht : s.tag = true) :
     Dec s st.tag (step s (.delTag name) st).1 := by
   rw [step_delTag_eq]
   repeat' split
   all_goals first | exact .plain (JK.refl _) | skip
-  refine .plain (JK.of_jp ?_)
+  rename_i t _ _
+  refine .plain ?_
   unfold dtApply
+  refine JK.trans (foldl_detach_jk s name st.tag t.convs ht) (JK.of_jp ?_)
   rw [foldl_jp _ (fun s r => delRefBy_jp s r name)]
-  exact foldl_jp _ (fun s c => detachConv_jp s name c) _ _
+  rfl
 
-theorem step_dec (s : St) (e : Ev) (st : Started) (hne : ∀ n r, e ≠ .tagDone n r) :
+-- CHANGED (dropped): `updConv` / `delTag` are covered only while a job is in flight
+theorem step_dec (s : St) (e : Ev) (st : Started) (hne : ∀ n r, e ≠ .tagDone n r)
+    (hud : s.tag = true ∨ ((∀ n cs, e ≠ .updConv n cs) ∧ ∀ n, e ≠ .delTag n)) :
     Dec s st.tag (step s e st).1 := by
   cases e with
   | nop => exact .plain (JK.refl _)
@@ -398,10 +879,16 @@ theorem step_dec (s : St) (e : Ev) (st : Started) (hne : ∀ n r, e ≠ .tagDone
     · exact .plain (JK.refl _)
     · split <;> exact .plain (JK.of_jp rfl)
   | updName name new => exact step_updName_dec _ _ _ _
-  | updConv name convs => exact step_updConv_dec _ _ _ _
+  | updConv name convs =>
+    rcases hud with ht | ⟨h1, _⟩
+    · exact step_updConv_dec _ _ _ _ ht
+    · exact absurd rfl (h1 _ _)
   | markAdd name ids => exact step_markAdd_dec _ _ _ _
   | markDel name ids => exact step_markDel_dec _ _ _ _
-  | delTag name => exact step_delTag_dec _ _ _
+  | delTag name =>
+    rcases hud with ht | ⟨_, h2⟩
+    · exact step_delTag_dec _ _ _ ht
+    · exact absurd rfl (h2 _)
   | viewOpen k =>
     unfold step
     simp only []
@@ -425,7 +912,7 @@ theorem job_stable (s : St) (e : Ev) (st : Started) (j : String × Tag × List N
     (∀ id, id ∈ s.upd → id ∈ (step s e st).1.upd) ∧ (∀ id, id ∈ s.rst → id ∈ (step s e st).1.rst) ∧
     (∀ id, id ∈ s.add → id ∈ (step s e st).1.add) := by
   have key : JK s (step s e st).1 := by
-    cases step_dec s e st hne with
+    cases step_dec s e st hne (Or.inl ht) with
     | plain h => exact h
     | tagging X h1 _ h3 =>
       rw [startTagging_id X st.tag (h1.tag.trans ht)] at h3
@@ -457,14 +944,15 @@ theorem tagDone_started (s : St) (n : String) (r : List Nat) (st : Started) (jn 
     · exact (tdPublish_fr { s with jTag := none } jn' snap' (ofList r)).sorted hw
     · exact (JK.of_jp (tdPublish_jp { s with jTag := none } jn' snap' (ofList r))).jTag
 
-/-- a tagging job that is in flight after an event during which no job was in flight before, or after a
-    tagging completion, was started at the end of that event: its snapshot is the tag of the table
-    (up to `refBy`, which `addTag` may still extend), and the during-job masks are empty -/
-theorem job_started (s : St) (e : Ev) (st : Started) (jn : String) (snap : Tag) (held : List Nat)
+/-- a tagging job that is in flight after an event (other than `updConv` / `delTag`) during which no job was in
+    flight before, or after a tagging completion, was started at the end of that event: its snapshot is the tag
+    of the table (up to `refBy`, which `addTag` may still extend), and the during-job masks are empty -/
+theorem job_started_plain (s : St) (e : Ev) (st : Started) (jn : String) (snap : Tag) (held : List Nat)
     (hw : Sorted s.tags)
     (hjw : s.tag = true ↔ s.jTag.isSome = true)
     (hev : ∀ n r, e = .tagDone n r → ∀ jn' snap' held', s.jTag = some (jn', snap', held') → jn' = n)
     (h : s.tag = false ∨ ∃ n r, e = .tagDone n r)
+    (hud : (∀ n cs, e ≠ .updConv n cs) ∧ ∀ n, e ≠ .delTag n)  -- CHANGED (dropped)
     (hj' : (step s e st).1.jTag = some (jn, snap, held)) :
     ∃ ot, sget (step s e st).1.tags jn = some ot ∧ ot.mat = snap.mat ∧ ot.unc = snap.unc ∧
       ot.defn = snap.defn ∧ ot.mfeat = snap.mfeat ∧ ot.sfeat = snap.sfeat ∧ ot.mainT = snap.mainT ∧
@@ -482,7 +970,7 @@ theorem job_started (s : St) (e : Ev) (st : Started) (jn : String) (snap : Tag) 
       | some p =>
         have := hjw.2 (by simp [hq])
         rw [ht] at this; cases this
-    cases step_dec s e st hne with
+    cases step_dec s e st hne (Or.inr hud) with
     | plain hk => rw [hk.jTag, hjn] at hj'; cases hj'
     | tagging X h1 h2 h3 =>
       exact started_of X _ st.tag (h2 hw) (h1.jTag.trans hjn) (h1.tag.trans ht) h3 jn snap held hj'
@@ -490,5 +978,145 @@ theorem job_started (s : St) (e : Ev) (st : Started) (jn : String) (snap : Tag) 
       cases e <;> first | exact ⟨_, _, rfl⟩ | exact absurd (fun _ _ h => by cases h) hne
     obtain ⟨n, r, rfl⟩ := hex
     exact tagDone_started s n r st jn snap held hw (hev n r rfl) hj'
+
+theorem JInv.started {A : Nat} {X : St} {jn : String} {snap : Tag} {held : List Nat} (h : JInv A X)
+    (hj : X.jTag = some (jn, snap, held)) :
+    ∃ ot, sget X.tags jn = some ot ∧ GRel A snap ot ∧
+      ∀ id, id ∈ ot.unc → id ∉ snap.unc → id < A → LateCov X snap id := by
+  rcases h with ⟨_, h2⟩ | ⟨_, jn', snap', held', ot, hj2, hot, hg, _, hl⟩
+  · rw [h2] at hj; cases hj
+  · rw [hj2] at hj; cases hj
+    exact ⟨ot, hot, hg, hl⟩
+
+/-- `updConv` without a job in flight: the detach fold may start one -/
+theorem step_updConv_jinv (s : St) (name : String) (convs : List String) (st : Started) (h0 : FI s s) :
+    JInv s.all (step s (.updConv name convs) st).1 := by
+  rw [step_updConv_eq]
+  repeat' split
+  all_goals first | exact h0.jinv | skip
+  rename_i t _ _
+  unfold ucAttach ucDetach
+  refine JInv.post ?_ (foldl_detach_fi s name st.tag (t.convs.filter (fun c => !convs.contains c)) h0).jinv
+  exact ((foldl_quiet _ (fun s c => attachConv_quiet s name c) _ _).trans (startConverter_quiet _)).post
+
+/-- `delTag` without a job in flight: the detach fold may start one, possibly for the tag that is deleted -/
+theorem step_delTag_jinv (s : St) (name : String) (st : Started) (hw : Sorted s.tags) (hb : Bounded s.all s.tags)
+    (ht : s.tag = false) (hjn : s.jTag = none)
+    (href : ∀ t', sget s.tags name = some t' → t'.refBy = [] → ∀ n t, sget s.tags n = some t → name ∉ t.refs)
+    (jn : String) (snap : Tag) (held : List Nat)
+    (hj' : (step s (.delTag name) st).1.jTag = some (jn, snap, held)) :
+    (jn ≠ name ∧ JInv s.all (step s (.delTag name) st).1) ∨
+    (jn = name ∧ sget (step s (.delTag name) st).1.tags jn = none ∧ ∃ t, sget s.tags jn = some t ∧ Fld t snap) := by
+  rw [step_delTag_eq] at hj' ⊢
+  split at hj'
+  · rw [hjn] at hj'; cases hj'
+  · rename_i t ht0
+    split at hj'
+    · rw [hjn] at hj'; cases hj'
+    · rename_i hrb
+      have hrb : t.refBy = [] := by simpa using hrb
+      simp only [hrb, List.isEmpty_nil, Bool.not_true, Bool.false_eq_true, if_false] at hj' ⊢
+      have hF := foldl_detach_fi s name st.tag t.convs (FI.init s hw hb ht hjn)
+      have hq : Quiet { (t.convs.foldl (fun s c => detachConv s name c st.tag) s) with
+            tags := sdel (t.convs.foldl (fun s c => detachConv s name c st.tag) s).tags name }
+          (dtApply s name t st.tag) := by
+        unfold dtApply
+        exact foldl_quiet _ (fun s r => delRefBy_quiet s r name) _ _
+      generalize t.convs.foldl (fun s c => detachConv s name c st.tag) s = F at hF hq
+      have hjF : F.jTag = some (jn, snap, held) := by
+        have := hq.post.jk.jTag
+        rw [hj'] at this; exact this.symm
+      rcases hF.jinv with ⟨_, h2⟩ | ⟨htg, jn', snap', held', ot, hj2, hot, hg, hpf, hl⟩
+      · rw [h2] at hjF; cases hjF
+      · rw [hj2] at hjF; cases hjF
+        by_cases hn : jn = name
+        · subst hn
+          refine Or.inr ⟨rfl, (hq.tags jn).2 (by simp [sget_sdel]), t, ht0, ?_⟩
+          obtain ⟨t', e', r'⟩ := hF.g jn t ht0
+          rw [hot] at e'; cases e'
+          exact r'.1.trans hg.1.symm
+        · refine Or.inl ⟨hn, JInv.post hq.post (Or.inr ⟨htg, jn, snap, held, ot, hj2, ?_, hg, hpf, ?_⟩)⟩
+          · simp [sget_sdel, Ne.symm hn, hot]
+          · intro id hid hns hlt
+            refine LateCov.mono (X := F) (JK.of_jp rfl) ?_ (hl id hid hns hlt)
+            intro r hr tr htr
+            refine ⟨tr, ?_, fun _ hi => hi⟩
+            have hne : name ≠ r := by
+              rintro rfl
+              cases hs : sget s.tags jn with
+              | none => rw [hF.back jn hs] at hot; cases hot
+              | some tj =>
+                obtain ⟨t', e', r'⟩ := hF.g jn tj hs
+                rw [hot] at e'; cases e'
+                apply href t ht0 hrb jn tj hs
+                obtain ⟨_, _, _, _, a5, a6, _⟩ := r'.1
+                obtain ⟨_, _, _, _, b5, b6, _⟩ := hg.1
+                rw [mem_refs, ← a5, ← a6, b5, b6]
+                exact hr
+            simp [sget_sdel, hne, htr]
+
+/-- a tagging job that is in flight after an event during which no job was in flight before, or after a
+    tagging completion, was started during that event: its snapshot is the tag of the table up to `refBy`
+    (which `addTag` may still extend), `convs`, and -- for `updConv` / `delTag`, where a later `outputDropped`
+    of the same detach fold may run after the start of the job -- pending streams that arrived late, each of
+    which is justified by the references of the snapshot (and then a during-job mask is not empty); or the
+    event is a `delTag` of the very tag whose job the detach fold started -/
+theorem job_started (s : St) (e : Ev) (st : Started) (jn : String) (snap : Tag) (held : List Nat)
+    (hw : Sorted s.tags)
+    (hb : ∀ n t, sget s.tags n = some t → ∀ id, id ∈ t.unc → id < s.all)   -- CHANGED (dropped): pending ids are stream ids
+    (href : ∀ name' t', e = .delTag name' → sget s.tags name' = some t' → t'.refBy = [] →
+      ∀ n t, sget s.tags n = some t → name' ∉ t.refs)   -- CHANGED (dropped): nobody references a tag that can be deleted
+    (hjw : s.tag = true ↔ s.jTag.isSome = true)
+    (hev : ∀ n r, e = .tagDone n r → ∀ jn' snap' held', s.jTag = some (jn', snap', held') → jn' = n)
+    (h : s.tag = false ∨ ∃ n r, e = .tagDone n r)
+    (hj' : (step s e st).1.jTag = some (jn, snap, held)) :
+    -- CHANGED (dropped)
+    (∃ ot, sget (step s e st).1.tags jn = some ot ∧ ot.mat = snap.mat ∧
+      (∀ id, id ∈ snap.unc → id < (step s e st).1.all → id ∈ ot.unc) ∧
+      ot.defn = snap.defn ∧ ot.mfeat = snap.mfeat ∧ ot.sfeat = snap.sfeat ∧ ot.mainT = snap.mainT ∧
+      ot.subT = snap.subT ∧ ot.gen = snap.gen ∧
+      (∀ id, id ∈ ot.unc → id ∉ snap.unc → id < (step s e st).1.all → LateCov (step s e st).1 snap id)) ∨
+    (e = .delTag jn ∧ sget (step s e st).1.tags jn = none ∧
+      ∃ t, sget s.tags jn = some t ∧ t.mainT = snap.mainT ∧ t.subT = snap.subT ∧ t.mfeat = snap.mfeat ∧
+        t.sfeat = snap.sfeat ∧ t.gen = snap.gen) := by
+  have hnojob : (∀ n r, e ≠ .tagDone n r) → s.tag = false ∧ s.jTag = none := by
+    intro hne
+    have ht : s.tag = false := by
+      rcases h with h | ⟨n, r, h⟩
+      · exact h
+      · exact absurd h (hne n r)
+    refine ⟨ht, ?_⟩
+    cases hq : s.jTag with
+    | none => rfl
+    | some p =>
+      have := hjw.2 (by simp [hq])
+      rw [ht] at this; cases this
+  have fin : ∀ (X : St), X.all = s.all → X.jTag = some (jn, snap, held) → JInv s.all X →
+      ∃ ot, sget X.tags jn = some ot ∧ ot.mat = snap.mat ∧
+        (∀ id, id ∈ snap.unc → id < X.all → id ∈ ot.unc) ∧
+        ot.defn = snap.defn ∧ ot.mfeat = snap.mfeat ∧ ot.sfeat = snap.sfeat ∧ ot.mainT = snap.mainT ∧
+        ot.subT = snap.subT ∧ ot.gen = snap.gen ∧
+        (∀ id, id ∈ ot.unc → id ∉ snap.unc → id < X.all → LateCov X snap id) := by
+    intro X hall hj hi
+    obtain ⟨ot, hot, ⟨⟨f1, f2, f3, f4, f5, f6, f7⟩, hgu⟩, hl⟩ := hi.started hj
+    rw [hall]
+    exact ⟨ot, hot, f1, hgu, f2, f3, f4, f5, f6, f7, hl⟩
+  cases e with
+  | updConv name convs =>
+    obtain ⟨ht, hjn⟩ := hnojob (by intro _ _ h; cases h)
+    exact Or.inl (fin _ (step_updConv_fr s name convs st).all hj'
+      (step_updConv_jinv s name convs st (FI.init s hw hb ht hjn)))
+  | delTag name =>
+    obtain ⟨ht, hjn⟩ := hnojob (by intro _ _ h; cases h)
+    rcases step_delTag_jinv s name st hw hb ht hjn (fun t' h1 h2 => href name t' rfl h1 h2) jn snap held hj' with
+      ⟨_, hi⟩ | ⟨hn, h1, t, h2, f1, f2, f3, f4, f5, f6, f7⟩
+    · exact Or.inl (fin _ (step_delTag_fr s name st).all hj' hi)
+    · subst hn
+      exact Or.inr ⟨rfl, h1, t, h2, f5.symm, f6.symm, f3.symm, f4.symm, f7.symm⟩
+  | _ =>
+    obtain ⟨ot, h1, h2, h3, h4, h5, h6, h7, h8, _, _, _, h12⟩ :=
+      job_started_plain s _ st jn snap held hw hjw hev h ⟨(by intro _ _ h; cases h), (by intro _ h; cases h)⟩ hj'
+    exact Or.inl ⟨ot, h1, h2, fun id hid _ => h3 ▸ hid, h4, h5, h6, h7, h8, h12,
+      fun id hid hns _ => absurd (h3 ▸ hid) hns⟩
 
 end Pk.Proofs.MgrTruth
